@@ -14,8 +14,8 @@ fn read_obs(ymd: (i32, u32, u32), wd: u8, doy: u32) -> Value {
 pub fn run_case(c: &Value) -> Value {
     let op = gs(c, "op");
     match op {
-        "date_from_ymd" => res_date(Date::from_ymd(gi(c, "y") as i32, gu32(c, "m"), gu32(c, "d"))),
-        "dt_from_ymd" => {
+        "c_date_from_ymd" => res_date(Date::from_ymd(gi(c, "y") as i32, gu32(c, "m"), gu32(c, "d"))),
+        "c_dt_from_ymd" => {
             let r = DateTime::from_ymd(gi(c, "y") as i32, gu32(c, "m"), gu32(c, "d"));
             // a DateTime built from a date is midnight UTC: project to the day only if so
             match r {
@@ -30,8 +30,8 @@ pub fn run_case(c: &Value) -> Value {
                 Err(e) => err_value(&e),
             }
         }
-        "date_set_doy" => res_date(date_at(gi(c, "base")).set_day_of_year(gu32(c, "n"))),
-        "dt_set_doy" => {
+        "c_date_set_doy" => res_date(date_at(gi(c, "base")).set_day_of_year(gu32(c, "n"))),
+        "c_dt_set_doy" => {
             let base = dt_at(gi(c, "base"), 45_296, 789, 0);
             match base.set_day_of_year(gu32(c, "n")) {
                 Ok(d) => {
@@ -45,11 +45,11 @@ pub fn run_case(c: &Value) -> Value {
                 Err(e) => err_value(&e),
             }
         }
-        "date_read" => {
+        "c_date_read" => {
             let d = date_at(gi(c, "dn"));
             read_obs(d.as_ymd(), d.weekday(), d.day_of_year())
         }
-        "dt_read" => {
+        "c_dt_read" => {
             let d = dt_at(gi(c, "dn"), 86_399, 999_999_999, 0);
             read_obs(d.as_ymd(), d.weekday(), d.day_of_year())
         }
@@ -83,7 +83,9 @@ pub fn main(args: &[String]) {
         }
         let allowed = c["exp"].as_array().expect("exp list");
         let ok = allowed.iter().any(|e| {
-            if e["k"] == "panic" {
+            if e["k"] == "any" {
+                true
+            } else if e["k"] == "panic" {
                 obs["k"] == "panic"
             } else {
                 *e == obs
